@@ -165,6 +165,63 @@ impl World {
                 }
                 self.after_step(&[i])
             }
+            Op::SnapshotRace { r, from, e1, e2, e3 } => {
+                let i = self.rix(*r);
+                let j = self.peer(i, *from);
+                let k = (0..self.n()).find(|x| *x != i && *x != j).unwrap_or(j);
+                self.bump("snapshot_races");
+                for x in [i, j, k] {
+                    self.op_commit(x, None)?;
+                }
+                for (a, b) in [(i, j), (j, i), (k, i), (k, j)] {
+                    self.op_meld(a, b)?;
+                    self.op_refresh(a)?;
+                }
+                self.after_step(&[i, j, k])?;
+                self.op_update(j, e1)?;
+                self.op_commit(j, None)?;
+                self.op_update(i, e2)?;
+                self.op_commit(i, None)?;
+                self.op_meld(i, j)?;
+                self.op_refresh(i)?;
+                if self.array_in_conflict(i)? {
+                    self.bump("snapshot_races_with_array_conflict");
+                }
+                self.op_meld(k, i)?;
+                self.op_meld(k, j)?;
+                self.op_refresh(k)?;
+                self.after_step(&[i, j, k])?;
+                self.op_snapshot(i)?;
+                self.op_commit(i, None)?;
+                self.op_update(k, e3)?;
+                self.op_commit(k, None)?;
+                self.op_meld(i, k)?;
+                self.op_refresh(i)?;
+                self.after_step(&[i, j, k])
+            }
+            Op::FaultyMeld { r, from, what, mask } => {
+                let i = self.rix(*r);
+                let j = self.peer(i, *from);
+                if i != j {
+                    let suffix = [".delta", ".pack", ""][*what as usize % 3].to_string();
+                    self.log.push(format!("reads of r{}'s storage ending in {:?} fail by mask {:#x} during the next meld", j, suffix, mask));
+                    self.reps[j].store.with(|s| {
+                        s.read_faults = Some((suffix, *mask));
+                        s.reads_in_fault = 0;
+                        s.failed_reads = 0;
+                    });
+                    let r = self.op_meld(i, j);
+                    let failed = self.reps[j].store.with(|s| {
+                        s.read_faults = None;
+                        s.failed_reads
+                    });
+                    r?;
+                    if failed > 0 {
+                        self.bump("melds_with_failed_source_reads");
+                    }
+                }
+                self.after_step(&[i, j])
+            }
             Op::Foreign { r, k } => {
                 let i = self.rix(*r);
                 let (name, bytes) = gen::foreign_item(*k);
@@ -215,6 +272,16 @@ impl World {
         let arrconf = self.array_in_conflict(i)?;
         let objconf = !guard("in_conflict", || self.reps[i].m.in_conflict())?.is_empty();
         self.log.push(format!("r{} update {}", i, doc));
+        // C16: versions of the array descriptors known before the update
+        let mut c16_arrays: Vec<(String, Vec<String>)> = vec![];
+        let mut c16_before: std::collections::BTreeMap<String, BTreeSet<String>> = Default::default();
+        if self.is("C16") {
+            model::doc_arrays(&doc, &mut vec![], &mut c16_arrays);
+            for (d, _) in &c16_arrays {
+                let revs = self.reps[i].m.verif_tree(d).map(|t| t.into_iter().map(|x| x.0).collect()).unwrap_or_default();
+                c16_before.insert(d.clone(), revs);
+            }
+        }
         let res = {
             let m = &self.reps[i].m;
             let d = docmap.clone();
@@ -226,6 +293,34 @@ impl World {
             return Ok(());
         }
         self.bump("updates");
+        if self.is("C16") {
+            // every version of a flattened array that this update stored must reconstruct -- from the stored
+            // descriptors, with the reference script applier -- to exactly the array that was submitted,
+            // whatever the replica had cached and whether or not the array is in conflict
+            let mut seen: BTreeSet<&String> = BTreeSet::new();
+            for (d, want) in &c16_arrays {
+                if want.iter().any(|x| x == "<noid>") || !seen.insert(d) {
+                    continue;
+                }
+                let now: BTreeSet<String> = self.reps[i].m.verif_tree(d).map(|t| t.into_iter().map(|x| x.0).collect()).unwrap_or_default();
+                let new: Vec<&String> = now.difference(&c16_before[d]).collect();
+                for r in new {
+                    match inv::leaf_order(&self.reps[i].m, d, r)? {
+                        Ok(o) => {
+                            let got: Vec<String> = o.iter().filter_map(|x| x.as_str().map(|s| s.to_string())).collect();
+                            if &got != want {
+                                return viol("C16", format!("version {} of {} stored by this update reconstructs to {:?}, submitted was {:?}", r, d, got, want));
+                            }
+                            self.bump("c16_new_versions_checked");
+                            if arrconf {
+                                self.bump("c16_new_versions_while_an_array_is_in_conflict");
+                            }
+                        }
+                        Err(e) => return viol("C16", format!("version {} of {} stored by this update cannot be reconstructed: {}", r, d, e)),
+                    }
+                }
+            }
+        }
         self.reps[i].last_doc = Some(doc.clone());
         // bookkeeping: contents submitted per id
         let mut tr = vec![];
